@@ -40,6 +40,11 @@ CLAIMED = {
         "level": "Decides five necessary conditions (U1-U5), each of which located a real crash on this tree; panic-freedom and termination of the whole front end on arbitrary text is NOT decided (hundreds of invariant-dependent unwrap/ice! sites).",
         "note": "Partial: clauses U1-U5.",
     },
+    "C09": {
+        "technique": "symbolic evaluation of the precedence/associativity tables into the full 13x13 relation and comparison with the documented grammar; round-trip cross-checks of sibling spelling tables (lexer bytes, Token Display, keywords, Token->BinOp, suffix names); dominance order of the token recognisers; byte/char unit taint in the lexer",
+        "level": "Decides the grouping relation for every ordered pair of binary operators and the agreement of all spelling tables; the value denoted by each literal spelling (escapes, number parsing) is NOT decided.",
+        "note": "Partial: clauses P1-P4.",
+    },
 }
 _PENDING = "check under construction in this session; not yet claimed"
 NOT_APPLICABLE = {p: _PENDING for p in
